@@ -488,6 +488,9 @@ def triples(seed, count, maxcells=3, minors=(5, 4, 2), max_edits=2, ops=None):
             if t is not None:
                 yield t
                 continue
+        if ops is None and u < 0.74:
+            yield same_section_reordered_triple(b, rnd)
+            continue
         common = b
         if rnd.random() < 0.3:
             # changes made identically on both sides (agreement), e.g. the same cell inserted by both
@@ -534,6 +537,35 @@ def concurrent_insert_triple(b, rnd):
     l, r = copy.deepcopy(b), copy.deepcopy(b)
     l['cells'][pos:pos] = lcells
     r['cells'][pos:pos] = rcells
+    return copy.deepcopy(b), l, r
+
+
+def same_section_reordered_triple(b, rnd):
+    """Both sides add the SAME cells at the same place (a section committed on two branches; with ids the ids are shared), then one
+    side moves one of them to the other end of the section and the other side adds a line to that cell."""
+    minor = b['nbformat_minor']
+    srcs = ['import numpy as np\nimport pandas as pd\n', 'df = pd.read_csv("data.csv")\ndf = df.dropna()\n', 'df.describe()\nprint(df.shape)\n']
+    tag = '%04x' % rnd.randrange(16 ** 4)
+    section = []
+    for k, src in enumerate(srcs):
+        c = nbformat.from_dict(code_cell(src))
+        if minor >= 5:
+            c['id'] = 'sec-%s-%d' % (tag, k)
+        else:
+            c.pop('id', None)
+        section.append(c)
+    pos = rnd.choice([0, len(b['cells'])])
+    which = rnd.choice([0, 2])                      # the cell that is moved: first to the end, or last to the front
+    moved = copy.deepcopy(section)
+    c = moved.pop(which)
+    moved.insert(0 if which == 2 else len(moved), c)
+    edited = copy.deepcopy(section)
+    edited[which]['source'] = edited[which]['source'] + rnd.choice(['import scipy.stats as st\n', '# checked by remote\n'])
+    l, r = copy.deepcopy(b), copy.deepcopy(b)
+    l['cells'][pos:pos] = moved
+    r['cells'][pos:pos] = edited
+    if rnd.random() < 0.5:
+        l, r = r, l
     return copy.deepcopy(b), l, r
 
 
